@@ -116,6 +116,28 @@ func runC04(r *Run) {
 		}
 	})
 
+	r.rule("R2c", "re-parsing at mount time keeps the custom constraints the route was registered with (those of the sub-app), it does not fall back to the parent's alone (E3)", func() {
+		pre := r.Fn("", "(*App).addPrefixToRoute")
+		var routeP *ssa.Parameter
+		for _, p := range pre.Params {
+			if strings.HasSuffix(p.Type().String(), "fiber/v3.Route") {
+				routeP = p
+			}
+		}
+		r.need(routeP != nil, "addPrefixToRoute(prefix, route)")
+		n := 0
+		withinFunction(pre, func() {
+			for _, c := range callsMatching(pre, false, nameIs(fiberMod+".parseRoute")) {
+				n++
+				cons := c.Common.Args[len(c.Common.Args)-1]
+				fromRoute := dependsOn(cons, func(v ssa.Value) bool { return v == ssa.Value(routeP) }) != nil
+				r.check(fromRoute, fmt.Sprintf("addPrefixToRoute:parseRoute#%d:route-constraints", n), r.pos(c.Instr), "the constraint list handed to the re-parse is derived from the route being re-prefixed",
+					"the mounted pattern is re-parsed with the parent application's custom constraints only: a constraint registered on the sub-app is unknown there, unknown names mean `no constraint`, and the mounted route accepts every value although the same route on the sub-app itself rejects it")
+			}
+		})
+		r.atLeast("parseRoute calls at mount time", n, 2)
+	})
+
 	r.rule("R3", "mount-time normalisation ≡ registration-time normalisation (shared with C03-R1)", func() {
 		reg, pre, _, _ := normForms(r)
 		ok, d := sameForm(reg["pattern"], pre["pattern"])
